@@ -449,14 +449,18 @@ Proof.
   constructor.
   - intros m Hm. rewrite Hns in Hm. specialize (Is m Hm). unfold slot_ok in *. rewrite Hs, Hnv, Hx, Hfr, Hvis.
     destruct Is as (A & B & C). split; [exact A|]. split; [exact B|].
-    destruct (sst (slot_at s m)) as [| | |t0|t0|t0]; auto; rewrite ?Hc.
+    destruct (sst (slot_at s m)) as [| | |t0|t0|t0]; rewrite ?Hc.
+    + exact C.
     + destruct C as (C1 & C2). split; auto. apply Hkk; eauto.
     + destruct C as (C1 & C2 & C3). repeat split; auto. apply Hkk; eauto.
     + destruct C as (C1 & C2 & C3). repeat split; auto. apply Hkk; eauto.
     + destruct C as (C1 & C2 & C3). repeat split; auto. apply Hkk; eauto.
+    + exact C.
   - intro t. specialize (It t). unfold thread_ok in *. rewrite Hc, Hns, Hmtx.
-    destruct It as (A & B & C & D & E). repeat split; auto; intros n Hn; rewrite ?Hs; try (apply B; auto); try (apply C; auto);
-      try (apply D; auto).
+    destruct It as (A & B & C & D & E). split; [exact A|]. split; [|split; [|split]]; auto.
+    + intros q Hq. rewrite Hs. apply B; auto.
+    + intros q Hq. rewrite Hs. apply C; auto.
+    + intros q Hq. rewrite Hs. apply D; auto.
   - intro i'. unfold coro_ok. rewrite Hns. destruct (Nat.eq_dec i' i) as [->|Hn].
     + rewrite Hki. destruct K'; auto; exfalso; [eapply N3|eapply N4]; eauto.
     + rewrite Hkne by auto. specialize (Ic i'). unfold coro_ok in Ic. destruct (kstat s i'); auto; rewrite Hs; auto.
